@@ -11,6 +11,7 @@ import simnet
 ID = "C17"
 MODULE = "HttpcoreModel.Props.C17"
 THEOREMS = [f"Httpcore.C17.{n}" for n in ("leading_exact", "read_slice", "read_slices", "read_slices_exhaust",
+                                             "handover_read", "handover_reads", "handover_exact", "handover_reads_exhaust",
                                            "feedAll_switched", "feedUntil_feedAll")]
 TRUSTED = [
     "Lean 4.33 kernel; axioms per theorem under coverage.theorems",
@@ -280,8 +281,12 @@ def run(ctx, driver):
         leading = core.kv(a)["leading"] if a else "-"
         lines2.append(f"h1upgrade {leading} " + ",".join(map(str, maxes)))
     ans2 = driver.run(lines2) if driver else [None] * len(cases)
+    # the whole hand-over: head loop, leading data, then the live connection (theorem handover_exact)
+    lines3 = [f"h1handover {'001' if kind == '101' else '010'} " + ",".join(core.hexb(s) for s in segs) + " " + ",".join(map(str, maxes))
+              for kind, head, d, segs, maxes in cases]
+    ans3 = driver.run(lines3) if driver else [None] * len(cases)
     evals = 0
-    for idx, ((kind, head, d, segs, maxes), a1, a2) in enumerate(zip(cases, ans1, ans2)):
+    for idx, ((kind, head, d, segs, maxes), a1, a2, a3) in enumerate(zip(cases, ans1, ans2, ans3)):
         rt = "sync"
         impl = run_impl(kind, segs, maxes, len(d), rt)
         evals += 1
@@ -299,13 +304,16 @@ def run(ctx, driver):
                 fails.append("bytes-lost-or-reordered")
             elif sum(len(r) for r in impl["reads"]) < len(d) and len(impl["reads"]) < len(maxes):
                 fails.append("bytes-lost-or-reordered")
+            if any(len(r) == 0 and m >= 1 for r, m in zip(impl["reads"], maxes)):
+                # the loop only reads while post-head data is outstanding and the peer never closes: an empty result is a false end of stream
+                fails.append("bytes-lost-or-reordered")
             if any(len(r) > m for r, m in zip(impl["reads"], maxes)):
                 fails.append("max-bytes-exceeded")
             if impl["written_tail"] != b"PING-%d" % len(d):
                 fails.append("write-not-passed-through")
             if impl["conns_after_close"] != 0 or impl["open_after_close"]:
                 fails.append("returned-to-pool")
-        for f in fails:
+        for f in dict.fromkeys(fails):
             known = core.match_known(ID, {"clause": f, "kind": kind})
             if known:
                 line = f"KNOWN-FINDING: property={ID} {known['id']} {known['what']}"
@@ -331,6 +339,15 @@ def run(ctx, driver):
                 got_lead = impl["reads"][:len(exp)]
                 if got_lead != exp[:len(impl["reads"])] and not (len(impl["reads"]) < len(exp) and got_lead == exp[:len(got_lead)]):
                     ok = False
+            if ok and a3 is not None:
+                m3 = core.kv(a3)
+                hreads = [] if m3["reads"] == "-" else [core.unhex(r) if r != "-" else b"" for r in m3["reads"].split(",")]
+                n = len(impl["reads"])
+                past = sum(1 for r in hreads[:n][len(exp):] if r)
+                dist["live-reads:" + ("0" if not past else "1-3" if past < 4 else "4+")] += 1
+                if m3["state"] != "switched" or impl["reads"] != hreads[:n]:
+                    ok = False
+                    payload = dict(payload, model_handover=a3[:400])
             if not ok and len(disagreements) < 10:
                 disagreements.append(dict(payload, model=a1, model_reads=mreads[:10]))
         if len(samples) < 3 and len(d) > 5 and len(segs) > 2:
